@@ -4,6 +4,7 @@
 pub mod civil;
 pub mod evidence;
 pub mod known;
+pub mod miri;
 pub mod pool;
 pub mod procpool;
 pub mod rng;
